@@ -80,7 +80,11 @@ func Setup(repo string, props []string, extraPkgs []string) (*World, error) {
 		var b strings.Builder
 		b.Write(src)
 		for _, m := range ghostNameRe.FindAllSubmatch(src, -1) {
-			GhostNamesSeen[string(m[1])] = true
+			if len(m[1]) > 0 {
+				GhostNamesSeen[string(m[1])] = true
+			} else if len(m) > 2 && len(m[2]) > 0 {
+				GhostNamesSeen[string(m[2])] = true
+			}
 		}
 		pkg := pkgPathOf(repo, f)
 		if !preludeDone[pkg] {
@@ -183,7 +187,7 @@ func Setup(repo string, props []string, extraPkgs []string) (*World, error) {
 
 // ghost variable names are string literals in the contract files: collected up front so that a callee's
 // `modifies ghost("*")` (and an unknown callee) forgets all of them, not only those read so far.
-var ghostNameRe = regexp.MustCompile(`(?:\bgr|\bgg|verif_ghost_int|verif_ghost_map(?:_upd|_old)?|\bghost)\("([A-Za-z0-9_:]+)"`)
+var ghostNameRe = regexp.MustCompile(`(?:\bgr|\bgg|verif_ghost_int|verif_ghost_map(?:_upd|_old)?|\bghost)\("([A-Za-z0-9_:]+)"|//@\s+records\s+([A-Za-z0-9_:]+)\s*=`)
 var GhostNamesSeen = map[string]bool{}
 
 func findTarget(hf *ssa.Function) (*ssa.Function, bool, string) {
